@@ -1,11 +1,168 @@
 import Oracle.Util
+import Wz.Model.MemAccess
+import Wz.Model.Amode
+import Wz.Model.SafeBounds
 namespace Oracle.C02
-open Oracle
+open Oracle Wz.Model
 
-/-- Topic state (stub: no model behind this topic yet). -/
+/-- Topic state: stateless. -/
 abbrev St := Unit
 def init : St := ()
 
-def step (st : St) (_args : List String) : St × String := (st, "bad-op")
+def showOpt (o : Option Nat) : String :=
+  match o with
+  | none => "trap"
+  | some n => toString n
+
+/-! amode expression parser (prefix tokens) -/
+open Wz.Model.Amode in
+def parseAExpr : List String → Option (AExpr × List String)
+  | "r64" :: r :: rest => do let r ← parseNat r; pure (.r64 r, rest)
+  | "k64" :: c :: m :: rest => do
+      let c ← parseNat c; let m ← parseBool m; pure (.k64 (BitVec.ofNat 64 c) m, rest)
+  | "k32" :: c :: m :: rest => do
+      let c ← parseNat c; let m ← parseBool m; pure (.k32 (BitVec.ofNat 32 c) m, rest)
+  | "ux" :: "r" :: r :: rest => do let r ← parseNat r; pure (.uext (.r32 r), rest)
+  | "ux" :: "c" :: c :: rest => do let c ← parseNat c; pure (.uext (.c32 (BitVec.ofNat 32 c)), rest)
+  | "sx" :: "r" :: r :: rest => do let r ← parseNat r; pure (.sext (.r32 r), rest)
+  | "sx" :: "c" :: c :: rest => do let c ← parseNat c; pure (.sext (.c32 (BitVec.ofNat 32 c)), rest)
+  | "shl" :: xk :: xv :: ak :: av :: rest => do
+      let xv ← parseNat xv
+      let av ← parseNat av
+      let x ← (if xk == "xr" then some (ShX.xr xv) else if xk == "xc" then some (ShX.xc (BitVec.ofNat 64 xv)) else none)
+      let a ← (if ak == "ac" then some (ShAmt.ac (BitVec.ofNat 64 av)) else if ak == "ar" then some (ShAmt.ar av) else none)
+      pure (.shl x a, rest)
+  | _ => none
+
+open Wz.Model.Amode in
+def parsePtr : List String → Option Ptr
+  | "S" :: rest => do
+      let (a, rest) ← parseAExpr rest
+      if rest.isEmpty then pure (.single a) else none
+  | "A" :: self :: rest => do
+      let self ← parseNat self
+      let (a, rest) ← parseAExpr rest
+      let (b, rest) ← parseAExpr rest
+      if rest.isEmpty then pure (.add a b self) else none
+  | _ => none
+
+open Wz.Model.Amode in
+def showReg : Reg → String
+  | .v r => s!"v{r}"
+  | .tmp c => s!"t{c.toNat}"
+  | .shlv r k => s!"s{r}:{k}"
+
+open Wz.Model.Amode in
+def showAmode : Option Amode → String
+  | none => "panic"
+  | some am =>
+    let idx := match am.index with
+      | none => "-"
+      | some (r, s) => s!"{showReg r}*{s}"
+    s!"imm={am.imm32.toNat} base={showReg am.base} index={idx}"
+
+/-! safe-bounds op parser -/
+open Wz.Model.SafeBounds in
+def parseEntries : Nat → List String → Option (State × List String)
+  | 0, rest => some ([], rest)
+  | n + 1, v :: b :: rest => do
+      let v ← parseNat v; let b ← parseNat b
+      let (es, rest) ← parseEntries n rest
+      pure (⟨v, b, none⟩ :: es, rest)
+  | _, _ => none
+
+open Wz.Model.SafeBounds in
+def parseStates : Nat → List String → Option (List State × List String)
+  | 0, rest => some ([], rest)
+  | n + 1, k :: rest => do
+      let k ← parseNat k
+      let (s, rest) ← parseEntries k rest
+      let (ss, rest) ← parseStates n rest
+      pure (s :: ss, rest)
+  | _, _ => none
+
+open Wz.Model.SafeBounds in
+partial def parseOps : List String → Option (List Op)
+  | [] => some []
+  | "a" :: v :: off :: size :: rest => do
+      let v ← parseNat v; let off ← parseNat off; let size ← parseNat size
+      let ops ← parseOps rest
+      pure (.access v off size :: ops)
+  | "c" :: b :: l :: rest => do
+      let b ← parseNat b; let l ← parseNat l
+      let ops ← parseOps rest
+      pure (.call b l :: ops)
+  | "e" :: sealed :: n :: rest => do
+      let sealed ← parseBool sealed; let n ← parseNat n
+      let (ss, rest) ← parseStates n rest
+      let ops ← parseOps rest
+      pure (.enterBlock ss sealed :: ops)
+  | "l" :: k :: rest => do
+      let k ← parseNat k
+      let ops ← parseOps rest
+      pure (.loopBack k :: ops)
+  | _ => none
+
+def takeN : Nat → List String → Option (List Nat × List String)
+  | 0, rest => some ([], rest)
+  | n + 1, x :: rest => do
+      let x ← parseNat x
+      let (xs, rest) ← takeN n rest
+      pure (x :: xs, rest)
+  | _, _ => none
+
+open Wz.Model.SafeBounds in
+def showEv : Ev → String
+  | .trap _ _ => "T"
+  | .ok addr _ _ _ _ checked => (if checked then "C" else "N") ++ toString addr
+
+def step (st : St) (args : List String) : St × String :=
+  match args with
+  | ["copy", n, src, dst, len] =>
+    match parseNat n, parseNat src, parseNat dst, parseNat len with
+    | some n, some src, some dst, some len =>
+      let spec := decide (len < src % 2^32 + n % 2^32 ∨ len < dst % 2^32 + n % 2^32)
+      (st, s!"spec={b2s spec} interp={b2s (MemAccess.copyTraps (BitVec.ofNat 32 n) (BitVec.ofNat 32 src) (BitVec.ofNat 32 dst) (BitVec.ofNat 64 len))}")
+    | _, _, _, _ => (st, "bad-op")
+  | [kind, base, off, w, len] =>
+    match parseNat base, parseNat off, parseNat w, parseNat len with
+    | some base, some off, some w, some len =>
+      let b := BitVec.ofNat 32 base
+      let o := BitVec.ofNat 32 off
+      let l := BitVec.ofNat 64 len
+      let spec := MemAccess.specAccess (base % 2^32) (off % 2^32) w len
+      if kind == "access" then
+        (st, s!"spec={showOpt spec} interp={showOpt ((MemAccess.access b o w l).map (·.toNat))}")
+      else if kind == "v128load" then
+        (st, s!"spec={showOpt (MemAccess.specAccess (base % 2^32) (off % 2^32) 16 len)} interp={showOpt ((MemAccess.v128Load b o l).map (·.toNat))}")
+      else if kind == "v128store" then
+        (st, s!"spec={showOpt (MemAccess.specAccess (base % 2^32) (off % 2^32) 16 len)} interp={showOpt ((MemAccess.v128Store b o l).map (·.toNat))}")
+      else (st, "bad-op")
+    | _, _, _, _ => (st, "bad-op")
+  | ["fill", n, dst, len] =>
+    match parseNat n, parseNat dst, parseNat len with
+    | some n, some dst, some len =>
+      let spec := decide (len < dst % 2^32 + n % 2^32)
+      (st, s!"spec={b2s spec} interp={b2s (MemAccess.fillTraps (BitVec.ofNat 32 n) 0#32 (BitVec.ofNat 32 dst) (BitVec.ofNat 64 len))}")
+    | _, _, _ => (st, "bad-op")
+  | "amode" :: fixed :: offBase :: rest =>
+    match parseBool fixed, parseNat offBase, parsePtr rest with
+    | some fixed, some offBase, some p =>
+      (st, showAmode (Amode.lowerToAddressMode fixed p (BitVec.ofNat 32 offBase)))
+    | _, _, _ => (st, "bad-op")
+  | "sb" :: base :: len :: nv :: rest =>
+    match parseNat base, parseNat len, parseNat nv with
+    | some base, some len, some nv =>
+      match takeN nv rest with
+      | none => (st, "bad-op")
+      | some (vals, rest) =>
+        match parseOps rest with
+        | none => (st, "bad-op")
+        | some ops =>
+          match SafeBounds.run (fun i => vals.getD i 0) ops (SafeBounds.init base len) with
+          | none => (st, "ill-formed")
+          | some evs => (st, " ".intercalate ("ev" :: evs.map showEv))
+    | _, _, _ => (st, "bad-op")
+  | _ => (st, "bad-op")
 
 end Oracle.C02
